@@ -18,7 +18,7 @@
     primitive logs an event carrying that safety bit; an unsafe call returns [PUnsafe] and
     the caller gives up with the error [EEscape]. C25_no_symlink_escape proves that the
     checkout never issues an unsafe call. *)
-From Verif Require Import Base.Prelude Gen.Tables.
+From Verif Require Import Base.Prelude.
 Local Open Scope string_scope.
 Local Open Scope list_scope.
 
@@ -51,9 +51,10 @@ Fixpoint quoted_items (s : string) (cur : option string) : list string :=
            end
   end.
 
-(** RESERVED_DIR_NAMES of lib/src/local_working_copy.rs:820, scraped on every run. *)
-Definition reserved_names : list name := quoted_items WC_RESERVED_DIR_NAMES_SRC None.
-Definition is_reserved (n : name) : bool := mem String.eqb n reserved_names.
+(** Membership in RESERVED_DIR_NAMES (lib/src/local_working_copy.rs:820). The list [rn]
+    is a parameter of the model; Base/WcNames.v instantiates it with the value scraped from
+    the source on every run, and the theorems hold for every list. *)
+Definition is_reserved (rn : list name) (n : name) : bool := mem String.eqb n rn.
 
 Definition path_eqb : path -> path -> bool := list_eqb String.eqb.
 
